@@ -66,3 +66,33 @@ CONTRACTS[NGK + "numba_build_skip_grams"] = dict(
         "for#5": dict(invariant=["len(coo_data) == n_windows"]),
     },
 )
+
+# ---------------------------------------------------------------- timed variant: sequences are (n, 2) float arrays of (token id, timestamp)
+TM = "vectorizers/timed_token_cooccurrence_vectorizer.py::"
+CONTRACTS[TM + "numba_build_skip_grams"] = dict(
+    params=dict(token_sequences="list[real[,2]]", window_size_array="int[,]", window_reversals="bool[]", kernel_functions="funcs", kernel_args="opaque",
+                mix_weights="real[]", normalize_windows="bool", n_unique_tokens="int", array_lengths="int[]"),
+    symbolic_consts={"COO_QUICKSORT_LIMIT": "int; COO_QUICKSORT_LIMIT >= 1"},
+    func_params={"kernel_functions": dict(returns="real[]", ensures=["len(ret) == len(arg0)"])},
+    local_types=dict(kernels="list[real[]]", windows="list[int[]]"),
+    inline_calls=["window_at_index"],   # called on a 2-D array here; its body is two slices
+    abstract_macros=["WF"],
+    ghost_after=[("@assign:coo_data", 1, "intro_all('WF', coo_data)\nassert forall(0, n_windows, lambda c: coo_data[c].ind[0] == 0 and len(coo_data[c].key) >= 2)")],
+    requires=[
+        "n_unique_tokens >= 1",
+        "len(window_reversals) == len(window_size_array) and len(mix_weights) == len(window_size_array) and len(array_lengths) == len(window_size_array)",
+        "forall(0, len(token_sequences), lambda d: forall(0, len(token_sequences[d]), lambda p: 0 <= token_sequences[d][p, 0] and token_sequences[d][p, 0] < window_size_array.shape[1]))",
+        "forall(0, window_size_array.shape[0], lambda a: forall(0, window_size_array.shape[1], lambda b: window_size_array[a, b] >= 0))",
+        "forall(0, len(array_lengths), lambda a: array_lengths[a] >= 2)",
+    ],
+    ensures=["len(result) == len(window_size_array)"],
+    loops={
+        "for#1": dict(invariant=[_COO_INV]),
+        "for#2": dict(invariant=[_COO_INV]),
+        "for#3": dict(invariant=[_COO_INV, "len(windows) == i and len(kernels) == i", "forall(0, i, lambda t: len(kernels[t]) == len(windows[t]))"]),
+        "for#4": dict(invariant=[_COO_INV, "len(windows) == n_windows and len(kernels) == n_windows", "forall(0, n_windows, lambda t: len(kernels[t]) == len(windows[t]))"]),
+        "for#5": dict(invariant=[_COO_INV, "len(windows) == n_windows and len(kernels) == n_windows", "forall(0, n_windows, lambda t: len(kernels[t]) == len(windows[t]))",
+                                 "len(this_ker) == len(window)"]),
+        "for#6": dict(invariant=["len(coo_data) == n_windows"]),
+    },
+)
